@@ -152,6 +152,16 @@ class Selection:
         if reg is None:
             reg = c.selections = []
         reg.append(self)
+        if isinstance(total, int) and total <= 8:
+            # a selection out of a few concrete positions is defined completely: count = number of kept positions, and the position kept
+            # after i' kept ones is the i'-th of the enumeration
+            seen = z3.IntVal(0)
+            for i in range(total):
+                k_i = zbool(keep(i))
+                c.assume(z3.Implies(k_i, z3.And(self.f_sel(seen) == i, self.f_rank(i) == seen)))
+                seen = seen + z3.If(k_i, 1, 0)
+            c.assume(self.count.z == seen)
+            return
         # lemma (proved on the spot with a fresh index): keep everywhere => count == total;
         # keep nowhere => count == 0
         if c.check_feasible:
